@@ -249,6 +249,8 @@ def run_case(case, reports=False, keep_objects=False):
 
                 def cfun(cid=cid, raises=raises):
                     events.append(_ev("cleanup", cid=cid, raised=raises))
+                    if raises and fault_kind == "kbd":
+                        raise KeyboardInterrupt()       # (interrupting programs: the user interrupts the run during a cleanup)
                     if raises:
                         raise RuntimeError("cleanup%d: disk is 100%% full {0} %%s {x}" % cid)     # (format-hostile text)
                 if s["cl_layer"]:
